@@ -873,3 +873,56 @@ fn space_provisioning(ctx: &Ctx, fx: &Fx) {
     sp.set("class_alphabet", serde_json::json!(calpha.len()));
     col.finish(true, "all sequences of <= 2 classes x <= 2 certificates");
 }
+
+//============ RFC 8183 identity exchange ====================================
+
+fn idx_err<E: std::fmt::Display>(e: E) -> String { e.to_string() }
+
+fn space_idexchange(ctx: &Ctx, fx: &Fx) {
+    let k = ctx.tier.pick(1, 2);
+    let nh = fx.handles.len();
+    let sp = ctx.space("idex.all",
+        "ChildRequest::new, ParentResponse::new, PublisherRequest::new (+ set_publisher_handle), RepositoryResponse::new over id-cert contents (2 real ID certificates, 1/2/4 octets, 1 KiB) x handles x service URIs x tags x sia_base x rrdp URI (None or https); star product; non-trivial = distinct written documents");
+    let col = Collector::new(sp.clone());
+    let special = 1 + fx.texts.iter().position(|t| t == "<&").unwrap_or(3);
+    let core_tag = [0usize, 1, special];
+    let core_h = [0usize, nh - 3];
+    let core_id = [0usize, 4];
+    let nid = fx.idcerts.len();
+    let ns = fx.services.len();
+    let id = |i: usize| Base64::from_content(&fx.idcerts[i].1);
+
+    let cases = star(&[nid, nh], &[&core_id, &core_h], k);
+    run_cases(&cases, &col, |c, l| {
+        let m = idx::ChildRequest::new(id(c[0]), fx.handle(c[1]));
+        roundtrip(ctx, "idex", l, &m, &|| format!("idex.child_request(id_cert={},child_handle={})", fx.idcerts[c[0]].0, trunc(&fx.handles[c[1]], 40)),
+            &|m| m.to_xml_vec(), &|b| idx::ChildRequest::parse(b).map_err(idx_err));
+    });
+    let cases = star(&[nid, nh, nh, ns, fx.n_tags()], &[&core_id, &core_h, &core_h[..1], &[2, ns - 4], &core_tag], k);
+    run_cases(&cases, &col, |c, l| {
+        let m = idx::ParentResponse::new(id(c[0]), fx.handle(c[1]), fx.handle(c[2]), fx.services[c[3]].clone(), fx.tag(c[4]));
+        roundtrip(ctx, "idex", l, &m, &|| format!("idex.parent_response(id_cert={},parent_handle={},child_handle={},service_uri={},tag={})", fx.idcerts[c[0]].0,
+            trunc(&fx.handles[c[1]], 40), trunc(&fx.handles[c[2]], 40), trunc(fx.services[c[3]].as_str(), 80), show_opt(&fx.tag(c[4]))),
+            &|m| m.to_xml_vec(), &|b| idx::ParentResponse::parse(b).map_err(idx_err));
+    });
+    let cases = star(&[nid, nh, fx.n_tags(), 2], &[&core_id, &core_h, &core_tag, &[0, 1]], k);
+    run_cases(&cases, &col, |c, l| {
+        let m = if c[3] == 0 { idx::PublisherRequest::new(id(c[0]), fx.handle(c[1]), fx.tag(c[2])) } else {
+            let mut m = idx::PublisherRequest::new(id(c[0]), fx.handle(0), fx.tag(c[2])); m.set_publisher_handle(fx.handle(c[1])); m };
+        roundtrip(ctx, "idex", l, &m, &|| format!("idex.publisher_request(id_cert={},publisher_handle={},tag={})", fx.idcerts[c[0]].0,
+            trunc(&fx.handles[c[1]], 40), show_opt(&fx.tag(c[2]))),
+            &|m| m.to_xml_vec(), &|b| idx::PublisherRequest::parse(b).map_err(idx_err));
+    });
+    let nr = fx.rsyncs.len(); let nhs = fx.httpss.len() + 1;
+    let cases = star(&[nid, nh, ns, nr, nhs, fx.n_tags()], &[&core_id[..1], &core_h[..1], &[2, ns - 4], &[3], &[0, 5], &core_tag], k);
+    run_cases(&cases, &col, |c, l| {
+        let rrdp = if c[4] == 0 { None } else { Some(fx.httpss[c[4] - 1].clone()) };
+        let m = idx::RepositoryResponse::new(id(c[0]), fx.handle(c[1]), fx.services[c[2]].clone(), fx.rsyncs[c[3]].clone(), rrdp.clone(), fx.tag(c[5]));
+        roundtrip(ctx, "idex", l, &m, &|| format!("idex.repository_response(id_cert={},publisher_handle={},service_uri={},sia_base={},rrdp={:?},tag={})", fx.idcerts[c[0]].0,
+            trunc(&fx.handles[c[1]], 40), trunc(fx.services[c[2]].as_str(), 80), trunc(fx.rsyncs[c[3]].as_str(), 80), rrdp.as_ref().map(|u| trunc(u.as_str(), 80)), show_opt(&fx.tag(c[5]))),
+            &|m| m.to_xml_vec(), &|b| idx::RepositoryResponse::parse(b).map_err(idx_err));
+    });
+    sp.set("alphabet_sizes", serde_json::json!({"id_certs": nid, "handles": nh, "service_uris": ns, "tags": fx.n_tags(), "rsync": nr, "https": nhs, "k": k}));
+    sp.sample_str(|| String::from_utf8_lossy(&idx::RepositoryResponse::new(id(2), fx.handle(3), fx.services[ns - 4].clone(), fx.rsyncs[3].clone(), Some(fx.httpss[4].clone()), fx.tag(special)).to_xml_vec()).into_owned());
+    col.finish(true, &format!("star product, k = {k}"));
+}
